@@ -80,9 +80,61 @@ impl serde::Serializer for BinaryStr {
     }
 }
 
+/// A deserializer of a non-self-describing kind (as bincode / postcard are): it holds one string and
+/// hands it out only when the type asks for a string; `deserialize_any` is an error.
+struct StrictStr<'a>(&'a str, bool);
+#[derive(Debug)]
+struct DeErr(String);
+impl std::fmt::Display for DeErr {
+    fn fmt(&self, f: &mut std::fmt::Formatter<'_>) -> std::fmt::Result {
+        write!(f, "{}", self.0)
+    }
+}
+impl std::error::Error for DeErr {}
+impl serde::de::Error for DeErr {
+    fn custom<T: std::fmt::Display>(m: T) -> Self {
+        DeErr(m.to_string())
+    }
+}
+impl<'de, 'a> serde::Deserializer<'de> for StrictStr<'a> {
+    type Error = DeErr;
+    fn deserialize_any<V: serde::de::Visitor<'de>>(self, _: V) -> Result<V::Value, DeErr> {
+        Err(DeErr("deserialize_any is not supported by this format".into()))
+    }
+    fn deserialize_str<V: serde::de::Visitor<'de>>(self, v: V) -> Result<V::Value, DeErr> {
+        if self.1 {
+            v.visit_string(self.0.to_string())
+        } else {
+            v.visit_str(self.0)
+        }
+    }
+    fn deserialize_string<V: serde::de::Visitor<'de>>(self, v: V) -> Result<V::Value, DeErr> {
+        v.visit_string(self.0.to_string())
+    }
+    fn is_human_readable(&self) -> bool {
+        false
+    }
+    serde::forward_to_deserialize_any! {
+        bool i8 i16 i32 i64 i128 u8 u16 u32 u64 u128 f32 f64 char bytes byte_buf option unit unit_struct newtype_struct seq tuple
+        tuple_struct map struct enum identifier ignored_any
+    }
+}
+
 macro_rules! one {
     ($t:ident, $s:expr) => {{
         let s: String = $s;
+        // a non-self-describing format: the string written for a value reads back as that value, an invalid string is refused
+        {
+            use serde::Deserialize;
+            for owned in [false, true] {
+                let strict: Result<$t, _> = $t::deserialize(StrictStr(&s, owned));
+                match (&strict, $t::new(s.clone())) {
+                    (Ok(a), Ok(b)) if a.as_str() == b.as_str() && a.url() == b.url() => {}
+                    (Err(_), Err(_)) => {}
+                    _ => return "strict-format-deserialisation-differs-from-new".to_string(),
+                }
+            }
+        }
         // look-alike strings are turned into values on this thread first (other letter case, padded,
         // trimmed, with and without a trailing slash): nothing of them may stick to the observed value
         {
